@@ -54,6 +54,18 @@ int main(int argc, char** argv)
         if (!ok) { ++fail; std::printf("FAIL one PLAIN iteration of %zu evaluations without distributions (all non-zero, %zu non-finite): reported calls=%zu non_zero_calls=%zu finite_calls=%zu\n",
             evals, nonfinite, r.calls(), r.non_zero_calls(), r.finite_calls()); }
     }
+    if (argc > 2)
+    {
+        // arguments beyond 32-bit ranges: calls = 2^bits + 7 through hep::vegas as well (call counts that pass through an int anywhere
+        // in the library would be truncated)
+        std::size_t evals = 0;
+        auto f = [&](hep::vegas_point<T> const&) { ++evals; return T(1); };
+        auto chk = hep::vegas(hep::make_integrand<T>(f, 1), std::vector<std::size_t>{n}, hep::make_vegas_chkpt<T, fast_engine>(2, T(1.5), fast_engine()),
+            hep::callback<hep::vegas_chkpt_with_rng<fast_engine, T>>(hep::callback_mode::silent));
+        auto const& r = chk.results().back();
+        if (!(r.calls() == n && evals == n && r.non_zero_calls() == n && r.finite_calls() == n))
+        { ++fail; std::printf("FAIL one VEGAS iteration asked for %zu calls: %zu evaluations, reported calls=%zu non_zero_calls=%zu finite_calls=%zu\n", n, evals, r.calls(), r.non_zero_calls(), r.finite_calls()); }
+    }
     if (!fail) std::printf("OK counters exact for %zu evaluations\n", n);
     return 0;
 }
